@@ -440,6 +440,37 @@ def r6_skip_test(ctx):
                     found = True
         ctx.check(found, fn, f"default of `{p}` is {attr}",
                   f"`{p}=None` no longer means the remembered {attr}")
+        # ... and a *given* argument is used as given: the parameter is
+        # re-bound from the curve's state only where it is None
+        for n in walk_no_nested(fn, False):
+            if not (isinstance(n, ast.Assign) and norm(n.targets[0]) == p):
+                continue
+            reads_self = [x for x in ast.walk(n.value)
+                          if isinstance(x, ast.Attribute)
+                          and isinstance(x.value, ast.Name)
+                          and x.value.id == "self"]
+            if not reads_self:
+                continue
+            conds = conditions_at(n)
+            if any(a.pol and a.text == f"{p} is None" for a in conds):
+                continue
+            v = n.value
+            if isinstance(v, ast.IfExp):
+                t = norm(v.test)
+                if t == f"{p} is None" and norm(v.orelse) == p:
+                    continue
+                if t == f"{p} is not None" and norm(v.body) == p:
+                    continue
+            if isinstance(v, ast.BoolOp):
+                raise Undecided(f"`{norm(n)[:60]}`: default of `{p}` chosen "
+                                "by truth value")
+            ctx.fail(n, f"`{p}` re-bound from curve state: {norm(n)[:60]}",
+                     f"a given `{p}` argument is combined with the curve's "
+                     f"remembered state (`{norm(reads_self[0])}`) instead "
+                     "of being used as given: settings of an earlier "
+                     "request leak into a later one, so the columns depend "
+                     "on the history and not only on raw data, steps and "
+                     "options")
     applies = [n for n in cfg.nodes if any(
         call_name(c) in ("preproc.apply", "apply")
         for c in fitrules.node_calls(n))]
